@@ -1837,6 +1837,39 @@ class Interp(object):
                     self.call_closure(ex, [None, None, None], {})
         elif isinstance(s, (ast.Import, ast.ImportFrom, ast.Global, ast.Nonlocal)):
             pass
+        elif isinstance(s, ast.Delete):
+            for t in s.targets:
+                if isinstance(t, ast.Name):
+                    env.pop(t.id, None)
+                elif isinstance(t, ast.Attribute):
+                    o = self.ev(t.value, env)
+                    if isinstance(o, Obj):
+                        if t.attr not in o.attrs:
+                            raise _Raise('AttributeError:' + t.attr)
+                        del o.attrs[t.attr]
+                    else:
+                        raise _Abort('del of an attribute of ' + src(t.value))
+                elif isinstance(t, ast.Subscript):
+                    o = self.ev(t.value, env)
+                    if not isinstance(o, (list, dict)):
+                        raise _Abort('del of an element of ' + src(t.value))
+                    if isinstance(t.slice, ast.Slice):
+                        lo = self.ev(t.slice.lower, env) if t.slice.lower is not None else None
+                        hi = self.ev(t.slice.upper, env) if t.slice.upper is not None else None
+                        st = self.ev(t.slice.step, env) if t.slice.step is not None else None
+                        if any(x is TOP for x in (lo, hi, st)):
+                            raise _Abort('del of an undetermined slice')
+                        del o[slice(lo, hi, st)]
+                    else:
+                        k = self.ev(t.slice, env)
+                        if k is TOP:
+                            raise _Abort('del of an undetermined element')
+                        try:
+                            del o[k]
+                        except (KeyError, IndexError) as ex:
+                            raise _Raise(type(ex).__name__)
+                else:
+                    raise _Abort('del target ' + type(t).__name__)
         else:
             raise _Abort('statement ' + type(s).__name__)
 
